@@ -1,7 +1,7 @@
 (* Extraction of the ring model (C13).  ExtrOcamlBasic only; nat stays inductive. *)
 Require Import ExtrOcamlBasic.
 From Coq Require Import Arith List.
-From Snap.Ring Require Import RingModel.
+From Snap.Ring Require Import RingModel RingErr.
 Extraction Language OCaml.
 Set Extraction Optimize.
-Extraction "../ocaml/C13/c13_ext.ml" RingModel.step RingModel.init RingModel.is_final RingModel.replay RingModel.obs.
+Extraction "../ocaml/C13/c13_ext.ml" RingModel.step RingModel.init RingModel.is_final RingModel.replay RingModel.obs RingErr.ereplay_all.
